@@ -92,6 +92,10 @@ def _matmul_chain(e: ast.AST):
                         scal.append(norm(f_))
                     return go(m_)
             return False
+        if isinstance(x, ast.ListComp) and len(x.generators) == 1 and not x.generators[0].ifs and norm(x.elt) == norm(x.generators[0].target):
+            return go(x.generators[0].iter)         # [k for k in X] is X
+        if isinstance(x, ast.Call) and call_name(x) in ("list", "np.array", "np.asarray", "np.copy") and len(x.args) == 1:
+            return go(x.args[0])
         if isinstance(x, (ast.Name, ast.Attribute)) or (isinstance(x, ast.Call) and call_name(x) in ("np.linalg.inv", "np.transpose")):
             mats.append(norm(x))
             return True
